@@ -507,6 +507,12 @@ func (s *Store) pushFile(target string, expected ocispec.Descriptor, content io.
 		return fmt.Errorf("failed to ensure directories of the target path: %w", err)
 	}
 
+	if !s.AllowPathTraversalOnWrite {
+		// replace an existing symbolic link instead of writing through it
+		if err := removeSymlink(target); err != nil {
+			return fmt.Errorf("failed to replace symbolic link %s: %w", target, err)
+		}
+	}
 	fp, err := os.Create(target)
 	if err != nil {
 		return fmt.Errorf("failed to create file %s: %w", target, err)
